@@ -195,15 +195,37 @@ def w_toggle(b, n, pause=None):
 _TOGGLE_GUARD = threading.Lock()
 
 
+def w_context_delete(b, n, pause=None):
+    """cycling: create a context state of CTX_DESCR -> a transaction whose ONLY content is the deletion of that state
+    (entity work flow: pop it from entity.states, write_entity(entity, [handle]))"""
+    with _TOGGLE_GUARD:
+        phase = getattr(b, 'delete_phase', 0)
+        b.delete_phase = (phase + 1) % 2
+        if phase == 0:
+            b.delete_handle = f'del{n}'
+        handle = b.delete_handle
+    if phase == 0:
+        with b.mdib.context_state_transaction() as tr:
+            tr.mk_context_state(CTX_DESCR, handle, set_associated=False)
+            _pause(pause)
+    else:
+        with b.mdib.context_state_transaction() as mgr:
+            entity = b.mdib.entities.by_handle(CTX_DESCR)
+            entity.states.pop(handle)
+            mgr.write_entity(entity, [handle])
+            _pause(pause)
+
+
 WRITERS = {'toggleTx': w_toggle, 'metricTx': w_metric, 'contextNewTx': w_context_new, 'contextUpdateTx': w_context_update,
            'descriptorTx': w_descriptor, 'descriptorAddTx': w_descriptor_add,
            'entityAdmitTx': w_entity_admit, 'entityEditTx': w_entity_edit, 'setLocationTx': w_set_location,
-           'setContextStateTx': w_set_context_state}
+           'setContextStateTx': w_set_context_state, 'contextDeleteTx': w_context_delete}
+PHASES = {'toggleTx': 3, 'contextDeleteTx': 2}   # cycling writers: every phase is traced by the translator
 NOT_GENERATED = ('setLocationTx',)
 ENTITY_WRITERS = ('entityAdmitTx', 'entityEditTx', 'setLocationTx', 'setContextStateTx')
 # writers that can be held OPEN (paused inside the transaction, holding tr_lock + mdib_lock) while the request arrives
 OPENABLE = ('metricTx', 'contextNewTx', 'contextUpdateTx', 'descriptorTx', 'descriptorAddTx', 'toggleTx', 'entityAdmitTx',
-            'entityEditTx')
+            'entityEditTx', 'contextDeleteTx')
 
 
 def new_bench():
@@ -222,9 +244,18 @@ def new_state():
         if callable(orig):
             orig(mdib, transaction)
         with tracer.suspended():
-            history[mdib.mdib_version] = take_snapshot(bench)
+            snap = take_snapshot(bench)
+        old = history.get(snap['version'])
+        if old is None:
+            history[snap['version']] = snap
+        elif (old['states'], old['descr']) != (snap['states'], snap['descr']):
+            # one MdibVersion, two contents: "the MDIB at MdibVersion v" is no longer defined (Lean: history_functional)
+            diff = sorted(map(str, set(old['states'].items()) ^ set(snap['states'].items())))[:2] or \
+                sorted(map(str, set(old['descr']) ^ set(snap['descr'])))[:2]
+            reused.append((snap['version'], [d[:120] for d in diff]))
     bench.mdib.post_commit_handler = post_commit
-    return {'bench': bench, 'tracer': tracer, 'history': history, 'n': 0}
+    reused = []
+    return {'bench': bench, 'tracer': tracer, 'history': history, 'n': 0, 'reused': reused}
 
 
 def trace_single(bench, tracer, fn):
@@ -253,8 +284,12 @@ def translate(ctx):
     progs = {}
     for name, fn in READERS.items():
         progs[name] = trace_single(bench, tracer, lambda fn=fn: fn(bench))
+    extra = []
     for i, (name, fn) in enumerate(WRITERS.items()):
         progs[name] = trace_single(bench, tracer, lambda fn=fn, i=i: fn(bench, 1000 + i))
+        for ph in range(1, PHASES.get(name, 1)):
+            progs[f'{name}_p{ph}'] = trace_single(bench, tracer, lambda fn=fn, i=i: fn(bench, 1000 + i))
+            extra.append(f'{name}_p{ph}')
     # ProviderMdibMethods.set_location looks the LocationContextDescriptor up BEFORE it opens its transaction (a read of the
     # description without mdib_lock). That is no Get handler and its writes are locked, but the model's discipline has no
     # place for it: the trace is kept in the evidence, the program is not part of the generated proof obligations; the
@@ -269,7 +304,7 @@ def translate(ctx):
     src.append('/-- the request handlers -/')
     src.append('def readerProgs : List (List Act) := [' + ', '.join('prog_' + n for n in READERS) + ']')
     src.append('/-- the transactions -/')
-    src.append('def writerProgs : List (List Act) := [' + ', '.join('prog_' + n for n in WRITERS if n not in NOT_GENERATED) + ']')
+    src.append('def writerProgs : List (List Act) := [' + ', '.join('prog_' + n for n in list(WRITERS) + extra if n not in NOT_GENERATED) + ']')
     src.append('end Sdc.Generated')
     core.write_if_changed(core.GENERATED + '/LockProgs.lean', '\n'.join(src) + '\n')
     ctx.notes['generated_programs'] = {k: ' '.join(tok_act(a) for a in v) for k, v in progs.items()}
@@ -617,6 +652,7 @@ def run_case(ctx, state, rname, wnames, points, opened=None):
     n0 = state['n'] * 10
     v0 = bench.mdib.mdib_version
     phase0 = getattr(bench, 'toggle_phase', 0)
+    dphase0 = getattr(bench, 'delete_phase', 0)
     for cl in (bench.get_client, bench.context_client):
         cl.soap_client.last_response = None
     # references to the objects published at v0 (what a reader that already left the section still holds)
@@ -627,12 +663,15 @@ def run_case(ctx, state, rname, wnames, points, opened=None):
     f = Forced(bench, tracer, lambda: READERS[rname](bench), writers, points, opened).run()
     evs_all = list(tracer.events)
     r_events = reader_events(tracer, f.reader_tid)
-    res = {'reader': rname, 'writers': wnames, 'points': points, 'v0': v0, 'toggle_phase': phase0, 'errors': f.errors, 'n_events': len(r_events),
+    res = {'reader': rname, 'writers': wnames, 'points': points, 'v0': v0, 'toggle_phase': phase0, 'delete_phase': dphase0, 'errors': f.errors, 'n_events': len(r_events),
            'r_events': r_events, 'events': evs_all, 'reader_tid': f.reader_tid, 'writer_tids': [th.name for _, th, _, _ in f.started], 'writer_ks': [k for k, *_ in f.started],
            'opened': opened, 'paused_actions': dict(f.paused_actions), 'unseen_waits': f.unseen_waits}
     if f.errors or f.answer is None:
         res['verdict'] = ('harness', '; '.join(f.errors) or 'no answer')
         return res
+    if state['reused']:
+        res['reused'] = list(state['reused'])
+        del state['reused'][:]
     bad, vc = check_answer(rname, READER_HANDLES[rname], f.answer, history)
     res['verdict'] = bad
     res['answer_version'] = vc[0] if vc else None
@@ -643,6 +682,39 @@ def run_case(ctx, state, rname, wnames, points, opened=None):
         if canon(st.mk_state_node(pm_state, bench.mdib.nsmapper)) != before:
             res['mutated'] = (st.DescriptorHandle, getattr(st, 'Handle', None))
             break
+    return res
+
+
+def run_overlap(ctx, state, a_name, b_name, wname):
+    """overlapping requests: the handler of A returns its (unserialised) answer, then optionally a transaction commits, then
+    request B is answered completely, only then A is serialised - as with two connections of the http server"""
+    bench, history = state['bench'], state['history']
+    state['n'] += 1
+    n = state['n'] * 10
+    out = {}
+
+    def between():
+        if wname:
+            WRITERS[wname](bench, n)
+        READERS[b_name](bench)
+        cl = bench.context_client if b_name.startswith('getContextStates') else bench.get_client
+        out['b'] = cl.soap_client.last_response
+    bench.before_serialise = between
+    v0 = bench.mdib.mdib_version
+    try:
+        READERS[a_name](bench)
+    finally:
+        bench.before_serialise = None
+    cl = bench.context_client if a_name.startswith('getContextStates') else bench.get_client
+    out['a'] = cl.soap_client.last_response
+    res = {'v0': v0, 'verdicts': []}
+    for which, name in (('a', a_name), ('b', b_name)):
+        bad, _vc = check_answer(name, READER_HANDLES[name], out[which], history)
+        if bad:
+            res['verdicts'].append((which, name, bad))
+    if state['reused']:
+        res['reused'] = list(state['reused'])
+        del state['reused'][:]
     return res
 
 
@@ -742,6 +814,8 @@ def _run(ctx):
         ctx.count('scheduler:thread-waiting-for-something-untraced', res.get('unseen_waits', 0))
         if 'toggleTx' in wn:
             case['toggle_phase'] = res['toggle_phase']
+        if 'contextDeleteTx' in wn:
+            case['delete_phase'] = res['delete_phase']
         ctx.case(case, nontrivial=in_flight, sample={**case, 'answer_version': res.get('answer_version'), 'v0': res['v0'],
                                                       'reader_events': [e[0] for e in res['r_events']][:12]} if len(pts) == 1 and pts[0] == 3 else None)
         ctx.count('reader:' + rname)
@@ -752,6 +826,10 @@ def _run(ctx):
             ctx.count('inject-at:' + ev[0] + (':locked' if ev[2] else ':unlocked'))
         if res['verdict']:
             report(ctx, res)
+        if 'reused' in res:
+            ver, diff = res['reused'][0]
+            ctx.fail('version-reused', f'transaction(s) {wn} changed the MDIB content but MdibVersion stayed {ver}: answers given before and after '
+                     f'state the same MdibVersion with different content ({diff})', case)
         if 'mutated' in res:
             ctx.fail('published-object-mutated', f"state {res['mutated']} published at MdibVersion {res['v0']} was changed in place by a later transaction "
                      '(a reader that serialises after releasing mdib_lock sees torn content)', case)
@@ -761,7 +839,25 @@ def _run(ctx):
         lines.append(line)
         metas.append((case, res, mprogs))
         ctx.count('answer-version-offset:' + str(res['answer_version'] - res['v0']))
-    ctx.traces = len(cases)
+    # ---- overlapping requests (answer A is built, B is built and sent, then A is serialised)
+    n_overlap = 0
+    others = ['getMdib', 'getMdDescription_all', 'getMdState_all', 'getContextStates_all']
+    for a_name in readers:
+        bsel = others + [a_name] if ctx.tier == 'thorough' else [rng.choice(others), a_name]
+        for b_name in dict.fromkeys(bsel):
+            for wname in ([None, 'metricTx', 'descriptorTx'] if ctx.tier == 'thorough' else [None, rng.choice(['metricTx', 'descriptorTx'])]):
+                res = run_overlap(ctx, state, a_name, b_name, wname)
+                case = {'overlap': [a_name, b_name], 'writers': [wname] if wname else []}
+                n_overlap += 1
+                ctx.case(case, nontrivial=True, sample=case if n_overlap == 2 else None)
+                ctx.count('overlap:' + a_name.split('_')[0] + '+' + b_name.split('_')[0])
+                for which, name, (sig, detail) in res['verdicts']:
+                    role = 'built before' if which == 'a' else 'built after'
+                    ctx.fail(f"{name.split('_')[0]}:{sig}:overlap", f'{detail}; answer {role} the overlapping request '
+                             f'({a_name} built, {wname or "no transaction"}, {b_name} answered, then {a_name} serialised)', case)
+                if 'reused' in res:
+                    ctx.fail('version-reused', f"MdibVersion {res['reused'][0][0]} published with two contents", case)
+    ctx.traces = len(cases) + n_overlap
     # ---- correspondence with the LTS + traced programs == generated programs
     if ctx.driver_ok and lines:
         out = ctx.driver('drv_c07', lines)
@@ -810,7 +906,7 @@ def relevant_writers(rname, rng):
     if rname.startswith('getMdDescription'):
         return ['descriptorTx', 'descriptorAddTx']
     if rname.startswith('getContextStates'):
-        return ['contextNewTx', 'contextUpdateTx']
+        return ['contextNewTx', 'contextUpdateTx', 'contextDeleteTx']
     if rname.startswith('getMdState'):
         return ['metricTx', rng.choice(['contextNewTx', 'descriptorTx', 'contextUpdateTx'])]
     return ['metricTx', rng.choice(['descriptorTx', 'descriptorAddTx', 'contextNewTx'])]
@@ -836,7 +932,7 @@ def parse_force(o):
 def report(ctx, res):
     sig, detail = res['verdict']
     case = {'reader': res['reader'], 'writers': res['writers'], 'points': res['points'], 'toggle_phase': res['toggle_phase'],
-            'opened': res['opened'], 'reader_events': [list(e) for e in res['r_events']][:40]}
+            'delete_phase': res['delete_phase'], 'opened': res['opened'], 'reader_events': [list(e) for e in res['r_events']][:40]}
     if sig == 'harness':
         raise RuntimeError('forced schedule could not be executed: ' + detail)
     inject = [res['r_events'][p][0] + ('' if res['r_events'][p][2] else '(unlocked)') if p < len(res['r_events']) else 'end' for p in res['points']]
@@ -857,6 +953,12 @@ def search(ctx):
 def replay(ctx, obj):
     case = obj['case']
     state = new_state()
+    if 'overlap' in case:
+        res = run_overlap(ctx, state, case['overlap'][0], case['overlap'][1], (case['writers'] or [None])[0])
+        print('overlap', case['overlap'], 'transaction in between:', case['writers'], '->', res['verdicts'], res.get('reused'))
+        return bool(res['verdicts']) or 'reused' in res
+    while getattr(state['bench'], 'delete_phase', 0) != case.get('delete_phase', 0):
+        w_context_delete(state['bench'], 7)
     while getattr(state['bench'], 'toggle_phase', 0) != case.get('toggle_phase', 0):
         w_toggle(state['bench'], 7)
     res = run_case(ctx, state, case['reader'], case['writers'], case['points'], case.get('opened'))
